@@ -204,7 +204,7 @@ BOUNDS = {
     'quick': 'histories of H=4 symbolic operations over 2 iterator slots and the view ({advance/create it_i, release it_i, '
              'release the view}); (nrows, buffersize, cache) in {(2,1,T),(2,1,F),(3,2,T),(3,3,T),(2,2,F),(3,None,T)}; source failure '
              'at a symbolic row (H=3); sort, reverse sort, join, distinct, aggregate, complement, mergesort, fromdicts(generator)',
-    'thorough': 'H=6 with 2 slots, H=5 with 3 slots (source failure: H=5); nrows up to 4; deep family for sort(n=2, buffersize=1, cache=True): 3 slots, H=7, case-split by the first three operations',
+    'thorough': 'H=5 with 2 slots, H=4 with 3 slots (source failure: H=4); nrows up to 4; deep family for sort(n=2, buffersize=1, cache=True): 3 slots, H=7, case-split by the first three operations',
 }
 OUTSIDE = 'interpreters without reference counting (immediate finalisation is assumed; gc.collect() is called before listing); more than 3 live iterators'
 STUBS = ['PickleStub (keeps real files: creation, re-opening, EOF, unlink are real)', 'private temp dir as tempdir= and tempfile.tempdir',
@@ -258,7 +258,7 @@ def jobs(tier):
     cfgs = [(2, 1, True), (2, 1, False), (3, 2, True), (3, 3, True), (2, 2, False), (3, None, True)]
     if not q:
         cfgs += [(4, 2, True), (4, 3, False), (4, 1, True)]
-    shapes = [(4, 2)] if q else [(6, 2), (5, 3)]
+    shapes = [(4, 2)] if q else [(5, 2), (4, 3)]
     for (n, bs, cache) in cfgs:
         for (H, ns) in shapes:
             out.append(dict(name='sort/n=%d/bs=%s/cache=%d/H=%d/slots=%d' % (n, bs, cache, H, ns), func='history',
@@ -272,13 +272,13 @@ def jobs(tier):
                             budget=3000, per_path=20, validate_every=8))
     for op in ('sort-reverse', 'join', 'distinct', 'aggregate', 'complement', 'mergesort'):
         for (n, bs, cache) in ([(3, 1, True), (3, 2, False)] if q else [(3, 1, True), (3, 2, False), (4, 2, True)]):
-            for (H, ns) in ([(4, 2)] if q else [(6, 2), (5, 3)]):
+            for (H, ns) in ([(4, 2)] if q else [(5, 2), (4, 3)]):
                 out.append(dict(name='%s/n=%d/bs=%s/cache=%d/H=%d/slots=%d' % (op, n, bs, cache, H, ns), func='history',
                                 params=dict(op=op, n=n, bs=bs, cache=cache, H=H, nslots=ns),
                                 budget=240 if q else 3000, per_path=20, validate_every=1 if q else 4))
     for op in ('sort', 'join', 'distinct'):
         for (n, bs, cache) in [(3, 1, True), (3, 2, True), (2, 1, False)]:
-            for (H, ns) in ([(3, 2)] if q else [(5, 2)]):
+            for (H, ns) in ([(3, 2)] if q else [(4, 2)]):
                 out.append(dict(name='fail/%s/n=%d/bs=%s/cache=%d/H=%d/slots=%d' % (op, n, bs, cache, H, ns),
                                 func='history', params=dict(op=op, n=n, bs=bs, cache=cache, H=H, nslots=ns, fail=True),
                                 budget=240 if q else 3000, per_path=20, validate_every=1 if q else 4))
